@@ -138,3 +138,32 @@ func VerifC16_OverMax() {
 	vf.Assert("over-max-writes-nothing", vf.All(len(t.Out) == 0, t.Writes == 0, s.Pending() == 0))
 	vf.Reach("end")
 }
+
+// SetPayload on an ARBITRARY pooled frame: whatever length and capacity an
+// earlier use left behind (releaseFrame only zeroes the first bytes), for
+// every payload length. What the pool can hold: a frame is born with 14 bytes
+// and SetPayload re-slices it to header+payload, so len >= 6 (masked, empty
+// payload) and cap >= 14.
+func VerifC16_SetPayloadOnPooledFrame() {
+	capv := vf.Len("frame.cap")
+	l := vf.Len("frame.len")
+	vf.Assume(vf.All(14 <= capv, capv <= 1<<40, 6 <= l, l <= capv))
+	raw := vf.Bytes("frame", capv)
+	f := Frame(raw[:l])
+	f.Reset() // what releaseFrame does
+	n := vf.Len("n")
+	vf.Assume(vf.All(0 <= n, n <= 1<<40))
+	b := vf.Bytes("payload", n)
+	(&f).SetIsMasked() // AcquireFrame in the client role
+	(&f).SetFIN().SetOpcode(OpcodeBinary).SetPayload(b)
+	vf.Assert("frame-is-exactly-header-plus-payload", vf.All(len(f) == f.payloadOffset()+n, f.PayloadLength() == n, f.IsMasked(), f.IsFIN()))
+	if n > 0 {
+		j := vf.Int("j")
+		vf.Assume(vf.All(0 <= j, j < n))
+		vf.Assert("payload-copied", f.Payload()[j] == b[j])
+	}
+	if n > 65535 && l < 10 {
+		vf.Reach("opt:short-pooled-frame-long-payload")
+	}
+	vf.Reach("end")
+}
